@@ -60,4 +60,9 @@ Theorem closing_signature_not_token (close_tag : K) (pk : pkey K) cid nonce lock
 Proof. intros Hn Hl Hy V. change (state_msg cid nonce lock cb mb) with (upd 1 nonce (close_msg close_tag cid lock cb mb)).
   apply (single_coordinate_rejects K pk (close_msg close_tag cid lock cb mb) s 1 nonce V); simpl; try lia; auto. Qed.
 
+
+Theorem honest_revocation_accepted (sk : skey K) (pk : pkey K) hr gr lock bf st u :
+  complete_payment sk pk hr gr (mkU (commit hr [gr] [lock] bf) st) u lock bf = inl (blind_sign sk pk u st).
+Proof. unfold complete_payment, revocation_opens; cbn [u_com u_state]. now rewrite (opening_accepts_original K). Qed.
+
 End P.
